@@ -893,6 +893,59 @@ def det_blocks():
         for props in (True, False):
             yield {"kind": "bags", "sub": sub, "test": copy.deepcopy(test), "gold": copy.deepcopy(gold),
                    "props": props, "share_objects": share}
+    # (d) renamings that PERMUTE names already in use (x3 <-> x8 ...): the renamed structure has the same node
+    # names as the original, attached to other nodes
+    def permute_names(m, k):
+        vs = all_vars(m)
+        by_sort = {}
+        for v in vs:
+            by_sort.setdefault(v[0], []).append(v)
+        ren = {}
+        for srt, lst in by_sort.items():
+            rot = lst[k % len(lst):] + lst[:k % len(lst)]
+            for x, y in zip(lst, rot):
+                ren[x] = y
+        j = copy.deepcopy(m)
+
+        def R(v):
+            return None if v is None else list(ren[tv(v)])
+        j["top"], j["index"] = R(j.get("top")), R(j.get("index"))
+        for e in j["rels"]:
+            e["label"] = R(e["label"])
+            e["args"] = [[r, R(v)] for r, v in e["args"]]
+        j["hcons"] = [[R(x), r, R(y)] for x, r, y in j["hcons"]]
+        j["icons"] = [[R(x), r, R(y)] for x, r, y in j["icons"]]
+        j["vars"] = [[R(v), ps] for v, ps in j["vars"]]
+        return j
+    for m in structs + [some_bark(), gen_cycle(drng, 4), gen_star(drng, 3, 2), gen_cycle(drng, 5, two_preds=True)]:
+        for k in (1, 2, 3):
+            pm = permute_names(m, k)
+            yield pair("renamed", "name-permutation", m, pm, True)
+            mu = mutate(drng, pm, drng.choice(["argtarget", "label", "hcons", "argrole"]))
+            if mu is not None and in_space(mu):
+                yield pair("mutant:name-permutation", "name-permutation", m, mu, True)
+    # (e) constants that differ only in letter case (constants compare exactly)
+    for c1, c2 in (("Kim", "kim"), ("KIM", "Kim"), ("McDonald", "Mcdonald"), ("Kim", "Kim")):
+        def named(c):
+            return {"top": ["h", 0], "index": ["e", 2],
+                    "rels": [ep("named", ["h", 4], [["ARG0", ["x", 3]]], c),
+                             ep("_bark_v_1", ["h", 1], [["ARG0", ["e", 2]], ["ARG1", ["x", 3]]])],
+                    "hcons": [[["h", 0], "qeq", ["h", 1]]], "icons": [], "vars": []}
+        for props in (True, False):
+            yield pair("mutant:cargtwin" if c1 != c2 else "renamed", "constant-case", named(c1), ren(named(c2)), props)
+    # (f) bags whose members have the same size signature but are not isomorphic, the true partner not first
+    sig = [negation_chain(2)]
+    for what in ("pred", "argtarget", "hcrel", "label"):
+        mu = mutate(drng, sig[0], what)
+        if mu is not None and in_space(mu) and len(all_vars(mu)) == len(all_vars(sig[0])):
+            sig.append(mu)
+    for rot in range(len(sig)):
+        test = sig[rot:] + sig[:rot]
+        gold = [ren(m) for m in reversed(sig)]
+        yield {"kind": "bags", "sub": "selfcopy", "test": copy.deepcopy(test), "gold": gold, "props": True,
+               "share_objects": False}
+        yield {"kind": "bags", "sub": "same-signature", "test": copy.deepcopy(test[:2]), "gold": gold[:-1],
+               "props": True, "share_objects": False}
     for members in ([a, a], [a, a, b], [b, c, b, c, b]):
         gold = [ren(m) for m in members]
         drng.shuffle(gold)
@@ -999,10 +1052,11 @@ class C06(Check):
         "isomorphic, and a True verdict preserves the multiset of predication node labels (predicate, constant, "
         "properties) so that one changed label is always rejected; hypotheses NamesOK / NoParallel / rowsOK "
         "(lean/Verif/C06/Spec.lean) are evaluated by the driver on every generated in-space case and must hold",
-        "NOT proved (direct oracle only): that a True verdict also preserves labels-as-scopes, role-labelled "
-        "arguments and handle/individual constraints at the MRS level (the graph-level statement is proved), and that "
-        "isomorphic MRSs pass the four size pre-checks (exhaustive bijection search on the MRS objects up to 7 "
-        "predications)",
+        "faithfulness is proved in both directions on the input space InSpace (lean/Verif/C06/Spec.lean): is_isomorphic "
+        "answers True exactly on isomorphic MRSs (MRSIso, defined without the graph), and isomorphic MRSs pass the "
+        "size pre-checks; InSpace is evaluated by the driver on every generated case (the counts are in the evidence; "
+        "cases outside it are the lower-case-role and unknown-hcons-relation mutants) — for those and for the real "
+        "code the direct oracle (exhaustive bijection search on the MRS objects up to 7 predications) decides",
     ]
     trusted_base = ["hand-written model lean/Verif/C06/Model.lean, tied to delphin.util._vf2* and "
                     "delphin.mrs._operations by the correspondence run (graph, augmented graph, mapping, verdict)",
@@ -1011,6 +1065,7 @@ class C06(Check):
 
     def __init__(self):
         self._brute = 0
+        self._inspace = {}
 
     def tables(self):
         """Generated table `commonProperties` plus the PINS: names and constants of the anchored functions that the
@@ -1248,6 +1303,8 @@ class C06(Check):
             answer = dict(answer)
             clean = answer.pop("clean", None)
             hyps = answer.pop("hyps", None)
+            insp = answer.pop("inspace", None)
+            self._inspace[bool(insp)] = self._inspace.get(bool(insp), 0) + 1
             if hyps is not True and case.get("oracle") != "skip":
                 return {"model": "the input-space hypotheses of the encoding theorems (NamesOK, NoParallel, rowsOK) "
                                  "are false on a generated in-space case", "case": case}
@@ -1431,7 +1488,9 @@ class C06(Check):
                 inc("feature:... with properties")
 
     def extra_evidence(self):
-        return {"exhaustive_oracle_evaluations": self._brute}
+        return {"exhaustive_oracle_evaluations": self._brute,
+                "model_cases_inside_InSpace_of_the_faithfulness_theorem": self._inspace.get(True, 0),
+                "model_cases_outside_InSpace (lower-case role / unknown hcons relation mutants)": self._inspace.get(False, 0)}
 
 
 CHECK = C06()
